@@ -143,7 +143,7 @@ def weave(engine, tag, tier="quick"):
     attached = []
     for mod, host, hfile in attach:
         t = repo_text(host)
-        t += f'\n#[cfg(kani)]\n#[path = "{hfile}"]\nmod verif_{mod};\n'
+        t += f'\n#[cfg(kani)]\n#[path = "{hfile}"]\npub(crate) mod verif_{mod};\n'
         _write_if_changed(os.path.join(src, host), t)
         attached.append((mod, host))
     _write_if_changed(
